@@ -14,7 +14,7 @@ func init() {
 	register(&propDef{
 		ID:          "C16",
 		Run:         ruleC16,
-		Explanation: "Decides the wiring of Atlas mode (structural necessary conditions of C16): the --atlasLogStartDate/--atlasLogEndDate values reach, through setters, globals, the window function, the download call and the per-host call, exactly the Sprintf operands that follow 'startDate=' / 'endDate=' in the constant URL format (no crossing, no break); project id, host and cluster name reach their path segments; the default window is (now-604800, now) from one time.Now; one per-host call per element of the host list in order, one client.Do per function and no loop around it (no retry); every request URL starts with the client's BaseURL, which is stored only from an https cloud.mongodb.com constant; the temp file is written only by io.Copy from the response body; output <outputFile>.<i> is created from the flag and the loop index and is the writer of the processing call for file i in the same iteration. NOT decided: HTTP behaviour, digest challenge rounds, gzip payload handling, SRV resolution.",
+		Explanation: "Decides the wiring of Atlas mode (structural necessary conditions of C16): the --atlasLogStartDate/--atlasLogEndDate values reach, through setters, globals, the window function, the download call and the per-host call, exactly the Sprintf operands that follow 'startDate=' / 'endDate=' in the constant URL format (no crossing, no break); project id, host and cluster name reach their path segments; the default window is (now-604800, now) from one time.Now, returned only where both dates are zero, and the given dates are never returned when both are zero; one per-host call per element of the host list in order, one client.Do per function and no loop around it (no retry); every request URL starts with the client's BaseURL, which is stored only from an https cloud.mongodb.com constant; the temp file is written only by io.Copy from the response body; output <outputFile>.<i> is created from the flag and the loop index and is the writer of the processing call for file i in the same iteration. NOT decided: HTTP behaviour, digest challenge rounds, gzip payload handling, SRV resolution.",
 		RuleText:    "obligations = positions of the URL format strings (operand taint by role), window function returns, host-loop shape, request constructors, BaseURL stores, temp-file writers, per-file loop pairing",
 	})
 }
@@ -224,6 +224,38 @@ func ruleC16(c *Ctx, r *Report) {
 
 	// ---- R2: default window
 	r.Floor("C16-R2", 2, "default return + duration constant")
+	// a test of one of the two dates against zero: which date, and whether the fact says "zero"
+	zeroTest := func(f Fact) (string, bool, bool) {
+		bo, ok := f.Cond.(*ssa.BinOp)
+		if !ok || (bo.Op != token.EQL && bo.Op != token.NEQ) {
+			return "", false, false
+		}
+		x, y := bo.X, bo.Y
+		if n, isC := constInt(x); isC && n == 0 {
+			x, y = y, x
+		}
+		if n, isC := constInt(y); !isC || n != 0 {
+			return "", false, false
+		}
+		x = resolveLocal(x)
+		switch {
+		case tS.Has(x) && !tE.Has(x):
+			return "S", (bo.Op == token.EQL) == f.Pol, true
+		case tE.Has(x) && !tS.Has(x):
+			return "E", (bo.Op == token.EQL) == f.Pol, true
+		}
+		return "", false, false
+	}
+	nZeroTests := 0 // a window function that does not test the dates against zero is of a shape this rule does not read
+	for _, b := range win.Blocks {
+		if ifi, ok := b.Instrs[len(b.Instrs)-1].(*ssa.If); ok {
+			for _, f := range expandFacts([]Fact{{ifi.Cond, true, ifi}}) {
+				if _, _, ok := zeroTest(f); ok {
+					nZeroTests++
+				}
+			}
+		}
+	}
 	allInstrs(win, func(i ssa.Instruction) {
 		ret, ok := i.(*ssa.Return)
 		if !ok || len(ret.Results) != 2 {
@@ -249,9 +281,89 @@ func ruleC16(c *Ctx, r *Report) {
 				}
 			}
 		}
-		// guarded by both globals being zero
 		r.Check(okShape, "C16-R2", win.Name()+":default-window-return", c.InstrPos(i), detail, detail)
+		// guarded by both dates being zero
+		zs, ze := false, false
+		for _, f := range allFacts(ret.Block()) {
+			if role, isZero, ok := zeroTest(f); ok && isZero {
+				zs = zs || role == "S"
+				ze = ze || role == "E"
+			}
+		}
+		if nZeroTests > 0 {
+			r.Check(zs && ze, "C16-R2", win.Name()+":default-window-guard", c.InstrPos(i), "the default window is returned only where both dates are zero (none given)",
+				"the default window is returned on a path where a given date is not known to be zero: a requested window is replaced by the last seven days")
+		}
 	})
+	// the explicit return is not reached with both dates zero: every path to it passes a
+	// test that found one of them non-zero
+	if nZeroTests > 0 && len(win.Blocks) > 0 {
+		// walk the function assuming both dates are zero on entry; a test is decided where it is a
+		// boolean combination of zero tests (a phi is read for the edge the walk came by)
+		type st struct{ b, from *ssa.BasicBlock }
+		var eval func(v ssa.Value, at st, depth int) (bool, bool)
+		eval = func(v ssa.Value, at st, depth int) (bool, bool) {
+			if depth > 6 {
+				return false, false
+			}
+			if b, ok := constBool(v); ok {
+				return b, true
+			}
+			switch x := v.(type) {
+			case *ssa.UnOp:
+				if x.Op == token.NOT {
+					b, ok := eval(x.X, at, depth+1)
+					return !b, ok
+				}
+			case *ssa.BinOp:
+				if _, isZero, ok := zeroTest(Fact{x, true, nil}); ok {
+					return isZero, true
+				}
+			case *ssa.Phi:
+				if x.Block() == at.b && at.from != nil {
+					for pi, p := range at.b.Preds {
+						if p == at.from {
+							return eval(x.Edges[pi], st{at.from, nil}, depth+1)
+						}
+					}
+				}
+			}
+			return false, false
+		}
+		reach := map[*ssa.BasicBlock]bool{win.Blocks[0]: true}
+		seenSt := map[st]bool{{win.Blocks[0], nil}: true}
+		work := []st{{win.Blocks[0], nil}}
+		for len(work) > 0 {
+			cur := work[0]
+			work = work[1:]
+			b := cur.b
+			ifi, _ := b.Instrs[len(b.Instrs)-1].(*ssa.If)
+			for si, succ := range b.Succs {
+				if ifi != nil && b.Succs[0] != b.Succs[1] {
+					if val, known := eval(ifi.Cond, cur, 0); known && val != (si == 0) {
+						continue
+					}
+				}
+				reach[succ] = true
+				if n := (st{succ, b}); !seenSt[n] {
+					seenSt[n] = true
+					work = append(work, n)
+				}
+			}
+		}
+		allInstrs(win, func(i ssa.Instruction) {
+			ret, ok := i.(*ssa.Return)
+			if !ok || len(ret.Results) != 2 {
+				return
+			}
+			r0, r1 := resolveLocal(ret.Results[0]), resolveLocal(ret.Results[1])
+			if !(tS.Has(r0) || tE.Has(r0) || tS.Has(r1) || tE.Has(r1)) {
+				return
+			}
+			r.Check(!reach[ret.Block()], "C16-R2", win.Name()+":explicit-window-guard", c.InstrPos(i), "the given dates are returned only past a test that found one of them non-zero",
+				"the return of the given dates is reached with neither date given: the request asks for the window (0, 0) instead of the last seven days")
+		})
+	}
 	if g := c.GlobalVar("defaultLogDuration"); g != nil {
 		okConst, others := false, 0
 		for _, f := range c.SortedFuncs() {
